@@ -1,6 +1,7 @@
 import IofloModel.Lemmas.Clones
 import IofloModel.Lemmas.ClonesLeaf
 import IofloModel.Lemmas.ClonesRaze
+import IofloModel.Lemmas.ClonesTree
 /-!
 # C12 — cloned framers run like their originals and never share relative state; rear and raze
 
@@ -867,5 +868,207 @@ example : ((resolveMoot 0 exRearHouse ("c1", { original := "ma", clone := "c1", 
     (fun s => (s.names.map (·.1), (s.get? 2).map (fun o => [o.name, o.inode] ++ o.lineage),
                (s.get? 2).map (fun o => [o.original, o.insular, o.razeable]))))
     = some (["ha", "ma", "ha_c1"], some ["ha_c1", "zed", "ma"], some [false, false, false]) := by decide +kernel
+
+/-! ## trees of clones: a clone that carries clones runs like its original -/
+
+/-- the entry points of the stand-alone TREE interpreter (Lemmas/ClonesTree.lean) at nesting level `n` -/
+def tcallEntry (TP : TProg) (n : Nat) (σ : String) : Entry → TSt → Except Err TSt
+  | .enterAll => tenterAll TP (topsAt TP n) σ
+  | .recur => trecur TP (topsAt TP n) σ
+  | .segue => tsegue TP (topsAt TP n) σ
+  | .exitAll => texitAll TP (topsAt TP n) false σ
+
+/-- **Refinement for trees** (PARTIAL: static trees).  A framer whose frames carry auxiliaries that carry auxiliaries …
+to any depth — `TP` maps every member, addressed by the suffix of its name below the root, to its script; the aux
+links of a script frame are its child members; scripts may use every modelled act except `rear` / `raze` and every
+need, including `all / any is done` and `aux T is done` of child members (`Frame.tok`) — behaves in any house, at
+every `Ops` level and from every member downward, exactly as the name-free, identity-free tree interpreter on the
+memory `(member, k) ↦ store[ι member k]`: same error or same next control states of ALL members, same memory, and the
+events emitted are the tree interpreter's events labelled `root ++ member`. -/
+theorem C12_tree_refines_partial (ι : String → String → String) (uid : String → Nat) (house root : String) (TP : TProg)
+    (base : List String) (hok : TreeOK ι uid house root TP) (n : Nat) (σ : String) (hσ : (TP σ).isSome = true)
+    (e : Entry) (s : St) (l : TSt) (h : TSim ι uid house root TP base s l) :
+    CorrT (TSim ι uid house root TP base) (callEntry (opsAt n) (uid σ) e s) (tcallEntry TP n σ e l) := by
+  have hk := tsim_level ι uid house root TP base hok n
+  cases e with
+  | enterAll => exact tsim_enterAll (opsAt n) (topsAt TP n) ι uid house root TP base hok hk σ hσ s l h
+  | recur => exact tsim_recur (opsAt n) (topsAt TP n) ι uid house root TP base hok hk σ hσ s l h
+  | segue => exact tsim_segue (opsAt n) (topsAt TP n) ι uid house root TP base hok hk σ hσ s l h
+  | exitAll => exact tsim_exitAll (opsAt n) (topsAt TP n) ι uid house root TP base hok hk false σ hσ s l h
+
+/-- … and `Framer.checkStart` (entry conditions of the first outline, then the auxiliaries' own `checkStart`, recursively) -/
+theorem C12_tree_refines_checkStart_partial (ι : String → String → String) (uid : String → Nat) (house root : String)
+    (TP : TProg) (base : List String) (hok : TreeOK ι uid house root TP) (n : Nat) (σ : String)
+    (hσ : (TP σ).isSome = true) (claimed : List Nat) (s : St) (l : TSt) (h : TSim ι uid house root TP base s l) :
+    checkStart (opsAt n) (uid σ) claimed s = (tcheckStart TP (topsAt TP n) σ l).map (fun b => (b, claimed)) :=
+  tsim_checkStart (opsAt n) (topsAt TP n) ι uid house root TP base hok (tsim_level ι uid house root TP base hok n)
+    σ hσ claimed s l h
+
+/-- **A clone tree runs like the original tree.**  Two trees of framer objects — a clone with the clones it carries,
+and the original run as an ordinary auxiliary with ITS clones; or two clones — in two houses or in one, with different
+root names, identities and resolution maps, whose members have the same scripts (`TP`) and are in one common situation
+`l` (same control state of every member, same clock, same values of every member's relative shares): the same entry
+point on the same member at the same level fails in both with the same error or succeeds in both and leaves them in
+one common situation — in particular the same events from the same members in the same order, each under its own name. -/
+theorem C12_clone_tree_runs_like_original_partial
+    (ι1 ι2 : String → String → String) (uid1 uid2 : String → Nat) (house1 house2 root1 root2 : String) (TP : TProg)
+    (base1 base2 : List String) (h1ok : TreeOK ι1 uid1 house1 root1 TP) (h2ok : TreeOK ι2 uid2 house2 root2 TP)
+    (n : Nat) (σ : String) (hσ : (TP σ).isSome = true) (e : Entry) (s1 s2 : St) (l : TSt)
+    (h1 : TSim ι1 uid1 house1 root1 TP base1 s1 l) (h2 : TSim ι2 uid2 house2 root2 TP base2 s2 l) :
+    match callEntry (opsAt n) (uid1 σ) e s1, callEntry (opsAt n) (uid2 σ) e s2 with
+    | .ok s1', .ok s2' => ∃ l', TSim ι1 uid1 house1 root1 TP base1 s1' l' ∧ TSim ι2 uid2 house2 root2 TP base2 s2' l'
+    | .error e1, .error e2 => e1 = e2
+    | _, _ => False := by
+  have c1 := C12_tree_refines_partial ι1 uid1 house1 root1 TP base1 h1ok n σ hσ e s1 l h1
+  have c2 := C12_tree_refines_partial ι2 uid2 house2 root2 TP base2 h2ok n σ hσ e s2 l h2
+  cases r : tcallEntry TP n σ e l with
+  | error er =>
+    rw [r] at c1 c2
+    cases r1 : callEntry (opsAt n) (uid1 σ) e s1 with
+    | ok s1' => rw [r1] at c1; exact c1.elim
+    | error e1 =>
+      cases r2 : callEntry (opsAt n) (uid2 σ) e s2 with
+      | ok s2' => rw [r2] at c2; exact c2.elim
+      | error e2 =>
+        rw [r1] at c1; rw [r2] at c2
+        exact c1.trans c2.symm
+  | ok l' =>
+    rw [r] at c1 c2
+    cases r1 : callEntry (opsAt n) (uid1 σ) e s1 with
+    | error e1 => rw [r1] at c1; exact c1.elim
+    | ok s1' =>
+      cases r2 : callEntry (opsAt n) (uid2 σ) e s2 with
+      | error e2 => rw [r2] at c2; exact c2.elim
+      | ok s2' =>
+        rw [r1] at c1; rw [r2] at c2
+        exact ⟨l', c1, c2⟩
+
+/-- what a common situation of two trees says: same events, same relative shares, same control state per member -/
+theorem C12_tree_same_events (ι1 ι2 : String → String → String) (uid1 uid2 : String → Nat)
+    (house1 house2 root1 root2 : String) (TP : TProg) (base1 base2 : List String) (s1 s2 : St) (l : TSt)
+    (h1 : TSim ι1 uid1 house1 root1 TP base1 s1 l) (h2 : TSim ι2 uid2 house2 root2 TP base2 s2 l) :
+    ∃ evs : List (String × String × Ctxt × String),
+      s1.out = evs.map (renderT root1) ++ base1 ∧ s2.out = evs.map (renderT root2) ++ base2 ∧
+      (∀ σ k, (TP σ).isSome = true → s1.read (ι1 σ k) = s2.read (ι2 σ k)) :=
+  ⟨l.ev, h1.out, h2.out, fun σ k hσ => (h1.mem σ k hσ).trans (h2.mem σ k hσ).symm⟩
+
+/-- the resolution maps of name-relative references over a tree: `<house>/framer.<root><member>.` in front -/
+def prefixMapT (house root : String) (σ k : String) : String := house ++ "/framer." ++ (root ++ σ) ++ "." ++ k
+
+/-- … satisfy the side conditions of the tree theorems when the members' names are dot-free, the members are different
+objects and the scripts stay inside the tree -/
+theorem C12_tree_prefix_maps_ok (uid : String → Nat) (house root : String) (TP : TProg)
+    (hdot : ∀ σ, (TP σ).isSome = true → '.' ∉ (root ++ σ).toList)
+    (huid : ∀ σ τ, (TP σ).isSome = true → (TP τ).isSome = true → uid σ = uid τ → σ = τ)
+    (hscr : ∀ σ fs first, TP σ = some (fs, first) → ∀ f ∈ fs, f.tok TP = true) :
+    TreeOK (prefixMapT house root) uid house root TP := by
+  refine { inj := ?_, uinj := huid, clkE := ?_, clkR := ?_, ok := hscr }
+  · intro σ k σ' k' hσ hσ' e
+    unfold prefixMapT at e
+    simp only [String.append_assoc] at e
+    have e1 := (String.append_right_inj _).mp e
+    have e1' := (String.append_right_inj _).mp e1
+    have e2 := congrArg String.toList e1'
+    simp only [String.toList_append] at e2
+    have hd : ".".toList = ['.'] := rfl
+    rw [hd] at e2
+    have e3 : (root ++ σ).toList ++ '.' :: k.toList = (root ++ σ').toList ++ '.' :: k'.toList := by
+      simpa [String.toList_append] using e2
+    have hn := append_sep_inj '.' _ _ _ _ (hdot σ hσ) (hdot σ' hσ') e3
+    have hnames : root ++ σ = root ++ σ' := String.toList_inj.mp hn
+    have hσσ : σ = σ' := (String.append_right_inj _).mp hnames
+    subst hσσ
+    refine ⟨rfl, ?_⟩
+    rw [hn] at e3
+    have := List.append_cancel_left e3
+    injection this with _ hk
+    exact String.toList_inj.mp hk
+  · intro σ
+    unfold prefixMapT kElapsed statePath
+    simp only [String.append_assoc]
+    rfl
+  · intro σ
+    unfold prefixMapT kRecurred statePath
+    simp only [String.append_assoc]
+    rfl
+
+/-! non-vacuity: a concrete tree — the clone `ha_c1` whose frame `p0` carries the clone `ha_c1_n1` (script `exP`), with
+`all is done` / `not aux _n1 is done` needs about it — satisfies the side conditions and is in a situation -/
+
+def exTop : List Frame :=
+  [{ name := "p0", inode := "", over := none, next := none, outline := ["p0"], links := [.tag "_n1"],
+     items := [.act .enter (.put 0 "cnt"), .act .recur (.record "r"),
+               .go "p0" [⟨false, .allDone⟩, ⟨true, .auxTag "_n1"⟩]] }]
+
+def exTP : TProg := fun σ => if σ = "" then some (exTop, "p0") else if σ = "_n1" then some (exP, "a0") else none
+
+def exUid (σ : String) : Nat := if σ = "" then 7 else 8
+
+theorem exTP_members (σ : String) (h : (exTP σ).isSome = true) : σ = "" ∨ σ = "_n1" := by
+  unfold exTP at h
+  by_cases h1 : σ = ""
+  · exact Or.inl h1
+  · by_cases h2 : σ = "_n1"
+    · exact Or.inr h2
+    · simp [h1, h2] at h
+
+example : TreeOK (prefixMapT "verif" "ha_c1") exUid "verif" "ha_c1" exTP := by
+  apply C12_tree_prefix_maps_ok
+  · intro σ h
+    rcases exTP_members σ h with rfl | rfl <;> decide
+  · intro σ τ hσ hτ e
+    rcases exTP_members σ hσ with rfl | rfl <;> rcases exTP_members τ hτ with rfl | rfl <;> first | rfl | (simp [exUid] at e)
+  · intro σ fs first h f hf
+    have hm : (exTP σ).isSome = true := by rw [h]; rfl
+    rcases exTP_members σ hm with rfl | rfl
+    · have : (exTop, "p0") = (fs, first) := by simpa [exTP] using h
+      injection this with e1 _
+      subst e1
+      revert f
+      decide
+    · have : (exP, "a0") = (fs, first) := by simpa [exTP] using h
+      injection this with e1 _
+      subst e1
+      revert f
+      decide
+
+def exTreeHouse : St :=
+  { objs := [{ uid := 7, house := "verif", name := "ha_c1", tag := "c1", sched := .aux, original := false, inode := "",
+               first := "p0", frames := exTop.map (gFrame (prefixMapT "verif" "ha_c1") exUid "") },
+             { uid := 8, house := "verif", name := "ha_c1_n1", tag := "n1", sched := .aux, original := false,
+               main := some (7, "p0"), inode := "", first := "a0",
+               frames := exP.map (gFrame (prefixMapT "verif" "ha_c1") exUid "_n1") }],
+    cur := "verif", houses := ["verif"], now := 3 }
+
+example : TSim (prefixMapT "verif" "ha_c1") exUid "verif" "ha_c1" exTP [] exTreeHouse
+    { ctls := fun _ => {}, mem := fun _ _ => none, now := 3 } := by
+  refine { obj := ?_, kid := ?_, mem := fun _ _ _ => rfl, now := rfl, out := rfl }
+  · intro σ fs first h
+    have hm : (exTP σ).isSome = true := by rw [h]; rfl
+    rcases exTP_members σ hm with rfl | rfl
+    · have : (exTop, "p0") = (fs, first) := by simpa [exTP] using h
+      injection this with e1 e2
+      subst e1 e2
+      exact ⟨_, rfl, rfl, rfl, rfl, rfl, rfl⟩
+    · have : (exP, "a0") = (fs, first) := by simpa [exTP] using h
+      injection this with e1 e2
+      subst e1 e2
+      exact ⟨_, rfl, rfl, rfl, rfl, rfl, rfl⟩
+  · intro σ fs first f τ h hf hτ
+    have hm : (exTP σ).isSome = true := by rw [h]; rfl
+    rcases exTP_members σ hm with rfl | rfl
+    · have : (exTop, "p0") = (fs, first) := by simpa [exTP] using h
+      injection this with e1 _
+      subst e1
+      simp [exTop] at hf
+      subst hf
+      simp [kidsOf] at hτ
+      subst hτ
+      exact ⟨_, rfl, rfl, rfl⟩
+    · have : (exP, "a0") = (fs, first) := by simpa [exTP] using h
+      injection this with e1 _
+      subst e1
+      simp [exP] at hf
+      rcases hf with rfl | rfl <;> simp [kidsOf] at hτ
 
 end Ioflo.Clones
